@@ -24,9 +24,15 @@ def run_sweep(chk, orch, oracle, make_wl, n_quick=10, n_round=32, crash_share=0.
             cell = common.random_cell(chk.rng) if (k > 0 or rounds > 1) else dict(common.GOLDEN_CELL)
             # a workload may pin parts of its cell (e.g. the memory mode its structure is aimed at)
             cell.update(opts.pop("force_cell", None) or {})
+            forced = opts.pop("force_fault", None)
             a = common.job_args(spec, opts, cell, oracles=[oracle])
             fn = "scenarios:pipeline"
-            if chk.rng.random() < crash_share:
+            if forced:
+                # a workload may also pin its fault (a kill at a stage-relative point its structure is aimed at)
+                fn = "scenarios:crash_resume"
+                a["fault"] = dict(forced)
+                a["resume"] = {}
+            elif chk.rng.random() < crash_share:
                 fn = "scenarios:crash_resume"
                 if chk.rng.random() < 0.5:
                     a["fault"] = {"kind": "kill", "index": 12 + chk.rng.randrange(260), "phase": chk.rng.choice(["before", "after"])}
